@@ -7,6 +7,7 @@ import (
 	"fmt"
 	"io/fs"
 	"math/big"
+	"os"
 	"path/filepath"
 	"sort"
 	"strconv"
@@ -621,7 +622,10 @@ func genC12(c *Ctx) {
 	sort.SliceStable(all, func(i, j int) bool { return must[all[i].Name] && !must[all[j].Name] })
 	for _, z := range all {
 		sig := fmt.Sprintf("%d %s", z.Init, c12FmtTrans(z.Trans))
-		if _, dup := seen[sig]; dup && !must[z.Name] {
+		if first, dup := seen[sig]; dup && !must[z.Name] {
+			if os.Getenv("C12_ALIASES") != "" {
+				fmt.Fprintf(os.Stderr, "alias %s %s\n", z.Name, first) // same offset table as an earlier name
+			}
 			continue
 		}
 		seen[sig] = z.Name
@@ -642,7 +646,7 @@ func genC12(c *Ctx) {
 				rest = append(rest, z)
 			}
 		}
-		for i := 0; i < 10 && len(rest) > 0; i++ {
+		for i := 0; i < 30 && len(rest) > 0; i++ {
 			j := c.Rng.Intn(len(rest))
 			chosen = append(chosen, rest[j])
 			rest = append(rest[:j], rest[j+1:]...)
@@ -675,7 +679,7 @@ func genC12(c *Ctx) {
 			}
 		}
 		// 2b. random instants 1900-2100 (before and after 1970), batches of nearby instants
-		nb := c.Pick(40, 60)
+		nb := c.Pick(40, 150)
 		for i := 0; i < nb; i++ {
 			base := c12GenLo + int64(c.Rng.Next()%uint64(c12GenHi-c12GenLo))
 			kind := ""
@@ -689,8 +693,17 @@ func genC12(c *Ctx) {
 			for j := 0; j < 8; j++ {
 				inst = append(inst, base*1e9+int64(c.Rng.Next()%uint64(2*span+1))-span)
 			}
-			// exact civil boundaries in UTC are frequent period boundaries of zones with whole-hour offsets
-			inst = append(inst, (base/86400)*86400e9, (base/86400)*86400e9-1)
+			// period boundaries: the local midnight of the day / of the 1st of the month / (sometimes) of Jan 1st as
+			// Go's time package resolves them, and the instant just before
+			lt := time.Unix(base, 0).In(z.loc())
+			y, mo, d := lt.Date()
+			bounds := []time.Time{time.Date(y, mo, d, 0, 0, 0, 0, z.loc()), time.Date(y, mo, 1, 0, 0, 0, 0, z.loc())}
+			if c.Rng.Intn(3) == 0 {
+				bounds = append(bounds, time.Date(y, 1, 1, 0, 0, 0, 0, z.loc()))
+			}
+			for _, b := range bounds {
+				inst = append(inst, b.UnixNano(), b.UnixNano()-1)
+			}
 			c.c12P(kind, z, inst)
 		}
 		// 2c. fixed durations around the zone's local 1970 epoch (the repaired D13 region) and at the pool durations
@@ -704,7 +717,7 @@ func genC12(c *Ctx) {
 			c.c12P(fmt.Sprintf("fixed:%d", d), z, inst)
 		}
 		// 2d. streams from random instants
-		ns := c.Pick(12, 20)
+		ns := c.Pick(12, 40)
 		for i := 0; i < ns; i++ {
 			kind := c12Kinds[c.Rng.Intn(len(c12Kinds))]
 			if c.Rng.Intn(4) == 0 {
